@@ -1,1 +1,148 @@
-// harnesses for src/memvid/lifecycle.rs (child module: sees private items of its parent)
+// Harnesses for src/memvid/lifecycle.rs.
+#![allow(unused_imports, static_mut_refs, clippy::all, clippy::pedantic)]
+use super::*;
+use crate::verif_env::*;
+
+#[path = "/verif/harness/playback/lifecycle.rs"]
+mod playback;
+
+// C06: next_frame_id() = committed frames + acknowledged-but-uncommitted inserts
+verif_proof! { [C06]
+    #[kani::unwind(5)]
+    #[kani::use_stub_set(crate::verif_env::memvid_stubs)]
+    fn c06_next_frame_id() {
+        let mut toc = empty_toc();
+        let n: usize = kani::any();
+        kani::assume(n <= 3);
+        let mut i = 0;
+        while i < n {
+            toc.frames.push(mk_frame(i as u64, 0, FrameStatus::Active));
+            i += 1;
+        }
+        let mut mv = mk_memvid(toc, mk_header(65536));
+        let pending: u64 = kani::any();
+        mv.pending_frame_inserts = pending;
+        let id = mv.next_frame_id();
+        if pending <= u64::MAX - 3 {
+            assert!(id == n as u64 + pending, "[C06] next_frame_id is not (committed frames + pending inserts)");
+        }
+        assert!(mv.frame_count() == n, "[C06] frame_count is not the number of frames");
+        kani::cover!(n == 3 && pending == 2, "reached");
+        leak(mv);
+    }
+}
+
+// C24: the capacity limit is the ticket's capacity, else the tier's.
+verif_proof! { [C24]
+    #[kani::unwind(3)]
+    #[kani::use_stub_set(crate::verif_env::memvid_stubs)]
+    fn c24_capacity_limit() {
+        let mut toc = empty_toc();
+        let cap: u64 = kani::any();
+        toc.ticket_ref.capacity_bytes = cap;
+        let wal_size: u64 = kani::any();
+        kani::assume(wal_size >= 1);
+        let mv = mk_memvid(toc, mk_header(wal_size));
+        let lim = mv.capacity_limit();
+        let tier = mv.tier();
+        if cap != 0 {
+            assert!(lim == cap, "[C24] capacity limit ignores the capacity granted by the ticket");
+        } else {
+            assert!(lim == tier.capacity_bytes(), "[C24] capacity limit without a ticket is not the tier's capacity");
+        }
+        let want_tier = if wal_size >= crate::constants::WAL_SIZE_LARGE { Tier::Enterprise } else if wal_size >= crate::constants::WAL_SIZE_MEDIUM { Tier::Dev } else { Tier::Free };
+        assert!(tier == want_tier, "[C24] tier derived from the header is wrong");
+        assert!(mv.get_capacity() == lim, "[C24] get_capacity disagrees with the enforced limit");
+        kani::cover!(cap == 0 && tier == Tier::Dev, "tier capacity used");
+        leak(mv);
+    }
+}
+
+// probe (not registered): cost of cloning an empty BTreeMap / a default Frame
+verif_proof! { [env]
+    #[kani::unwind(5)]
+    fn probe_clone_empty_btreemap() {
+        let m: std::collections::BTreeMap<String, String> = std::collections::BTreeMap::new();
+        let c = m.clone();
+        assert!(c.is_empty());
+        let f = mk_frame(0, 0, FrameStatus::Active);
+        let g = f.clone();
+        assert!(g.id == 0);
+        leak(f); leak(g); leak(m); leak(c);
+    }
+}
+
+// ===========================================================================
+// C22 / C20: open-time validators on arbitrary TOC-supplied numbers.
+// ===========================================================================
+fn any_status() -> FrameStatus {
+    let b: u8 = kani::any();
+    kani::assume(b < 3);
+    match b { 0 => FrameStatus::Active, 1 => FrameStatus::Deleted, _ => FrameStatus::Superseded }
+}
+
+verif_proof! { [C22 C20]
+    #[kani::unwind(34)]
+    #[kani::stub(alloc::fmt::format, crate::verif_env::stub_format)]
+    fn c22_verify_toc_prefix() {
+        let bytes: [u8; 32] = kani::any();
+        let len: usize = kani::any();
+        kani::assume(len <= 32);
+        let r = verify_toc_prefix(&bytes[..len]);
+        if r.is_ok() {
+            assert!(len >= 24, "[C22] TOC prefix check accepted a truncated prefix");
+            let ver = u64::from_le_bytes([bytes[0], bytes[1], bytes[2], bytes[3], bytes[4], bytes[5], bytes[6], bytes[7]]);
+            let segs = u64::from_le_bytes([bytes[8], bytes[9], bytes[10], bytes[11], bytes[12], bytes[13], bytes[14], bytes[15]]);
+            let frames = u64::from_le_bytes([bytes[16], bytes[17], bytes[18], bytes[19], bytes[20], bytes[21], bytes[22], bytes[23]]);
+            assert!(ver <= 32 && segs <= 1_000_000 && frames <= 1_000_000, "[C22] TOC prefix check accepted unreasonable counts");
+            assert!(segs * 32 + frames * 64 <= len as u64, "[C22] TOC prefix check accepted counts that cannot fit in the TOC bytes (huge allocation ahead)");
+        }
+        kani::cover!(r.is_ok(), "accepted");
+        kani::cover!(r.is_err() && len >= 24, "rejected");
+        leak(r);
+    }
+}
+
+verif_proof! { [C22 C20]
+    #[kani::unwind(5)]
+    #[kani::use_stub_set(crate::verif_env::memvid_stubs)]
+    #[kani::stub(alloc::fmt::format, crate::verif_env::stub_format)]
+    fn c22_frame_bounds_validators() {
+        let mut toc = empty_toc();
+        let mut off = [0u64; 2];
+        let mut len = [0u64; 2];
+        let mut st = [FrameStatus::Active; 2];
+        let mut f0 = mk_frame(0, 0, FrameStatus::Active);
+        off[0] = kani::any(); len[0] = kani::any(); st[0] = any_status();
+        f0.payload_offset = off[0]; f0.payload_length = len[0]; f0.status = st[0];
+        let mut f1 = mk_frame(1, 0, FrameStatus::Active);
+        off[1] = kani::any(); len[1] = kani::any(); st[1] = any_status();
+        f1.payload_offset = off[1]; f1.payload_length = len[1]; f1.status = st[1];
+        toc.frames.push(f0);
+        toc.frames.push(f1);
+        let file_len: u64 = kani::any();
+        let mut header = mk_header(kani::any());
+        header.wal_offset = kani::any();
+        header.footer_offset = kani::any();
+        // no panic for any numbers
+        let r = ensure_non_overlapping_frames(&toc, file_len);
+        let de = compute_data_end(&toc, &header);
+        let pe = compute_payload_region_end(&toc, &header);
+        let wal_end = header.wal_offset.saturating_add(header.wal_size);
+        assert!(de >= wal_end && pe >= wal_end, "[C22] data end computed before the end of the log region");
+        let live0 = st[0] == FrameStatus::Active && len[0] > 0;
+        let live1 = st[1] == FrameStatus::Active && len[1] > 0;
+        if r.is_ok() {
+            if live0 { assert!(off[0] <= file_len && len[0] <= file_len - off[0], "[C20] a frame whose payload lies outside the file was accepted"); }
+            if live1 { assert!(off[1] <= file_len && len[1] <= file_len - off[1], "[C20] a frame whose payload lies outside the file was accepted"); }
+            if live0 && live1 {
+                assert!(off[0] + len[0] <= off[1] || off[1] + len[1] <= off[0], "[C20] overlapping frame payloads were accepted");
+            }
+            if live0 { assert!(de >= off[0] + len[0] && pe >= off[0] + len[0], "[C22] data end does not cover an active payload"); }
+        }
+        kani::cover!(r.is_ok() && live0 && live1, "two live frames accepted");
+        kani::cover!(r.is_err(), "rejected");
+        leak(r);
+        leak(toc);
+    }
+}
